@@ -192,7 +192,7 @@ func (*c09) Corpus() []any {
 		out = append(out, base[7].mk(b, []int{0, 0, 0, 0, 0, 1, 0, 1, 1, 1, 0, 0, 1, 0, 0, 0, 0, 0}))
 		out = append(out, c9mixCorpus(b)...)
 	}
-	return out
+	return append(out, c9flagFamily()...)
 }
 
 func (*c09) Exhaustive(tier string) []any {
